@@ -186,10 +186,15 @@ s = func(tc, "tj3SetICCProfile", "turbojpeg.c")
 if "this->iccBuf=NULL;this->iccSize=0;if(iccBuf&&iccSize){" not in s:
     sys.exit("turbojpeg.c tj3SetICCProfile: iccBuf/iccSize are no longer set together")
 
+m = re.search(r"SET_PARAM\(saveMarkers,(\d+),(\d+)\);", norm(tc))
+if not m:
+    sys.exit("turbojpeg.c tj3Set: range of TJPARAM_SAVEMARKERS not found")
+save_min, save_max = int(m.group(1)), int(m.group(2))
 print("(* GENERATED by tools/gen_XformIcc.py from src/turbojpeg.c, transupp.c, transupp.h -- do not edit *)")
 print("From Coq Require Import ZArith Bool.\nLocal Open Scope Z_scope.\nLocal Open Scope bool_scope.\n")
 for i, o in enumerate(opts):
     print("Definition %s : Z := %d." % (o.replace("JCOPYOPT_", "jcopyopt_"), i))
+print("Definition gen_savemarkers_min : Z := %d.\nDefinition gen_savemarkers_max : Z := %d.   (* tj3Set(TJPARAM_SAVEMARKERS) *)" % (save_min, save_max))
 print("\n(* tj3TransformBufSize: the ICC term added to tj3JPEGBufSize (save = TJPARAM_SAVEMARKERS,")
 print("   temp = tempICCSize, inst = iccSize) *)")
 print("Definition gen_size_term (save : Z) (copynone : bool) (temp inst : Z) : Z :=\n  %s." % size_term)
